@@ -9,12 +9,12 @@ open GnoVerif.Gen.C52
 /-! ## table facts -/
 
 set_option maxRecDepth 8192 in
-theorem urlEscapeTable_length : urlEscapeTable.length = 256 := by decide
+theorem urlEscapeTable_length : urlEscapeTable.length = 256 := by decide +kernel
 set_option maxRecDepth 8192 in
-theorem utf8lenTable_length : utf8lenTable.length = 256 := by decide
+theorem utf8lenTable_length : utf8lenTable.length = 256 := by decide +kernel
 
 set_option maxRecDepth 8192 in
-theorem urlSafe_small : ∀ c, c < 256 → urlSafe c = true → (32 < c ∧ c ≠ 37) := by decide
+theorem urlSafe_small : ∀ c, c < 256 → urlSafe c = true → (32 < c ∧ c ≠ 37) := by decide +kernel
 
 theorem urlSafe_big (c : Nat) (h : ¬ c < 256) : urlSafe c = false := by
   have hlen : urlEscapeTable.length ≤ c := by rw [urlEscapeTable_length]; omega
@@ -28,7 +28,7 @@ theorem urlSafe_gt (c : Nat) (h : urlSafe c = true) : 32 < c ∧ c ≠ 37 := by
 
 set_option maxRecDepth 8192 in
 theorem unreserved_urlSafe_small : ∀ c, c < 256 →
-    (isAlnum c = true ∨ c = 45 ∨ c = 95 ∨ c = 46 ∨ c = 126) → urlSafe c = true := by decide
+    (isAlnum c = true ∨ c = 45 ∨ c = 95 ∨ c = 46 ∨ c = 126) → urlSafe c = true := by decide +kernel
 
 theorem isAlnum_lt (c : Nat) (h : isAlnum c = true) : c < 256 := by
   simp [isAlnum, isAlpha, isDigit] at h; omega
@@ -43,7 +43,7 @@ theorem unreserved_urlSafe (c : Nat) (h : isAlnum c = true ∨ c = 45 ∨ c = 95
 
 set_option maxRecDepth 8192 in
 theorem utf8len_small : ∀ c, c < 256 →
-    (utf8len c = 1 ∨ (utf8len c = 99 ∧ 128 ≤ c) ∨ (2 ≤ utf8len c ∧ utf8len c ≤ 4 ∧ 192 ≤ c)) := by decide
+    (utf8len c = 1 ∨ (utf8len c = 99 ∧ 128 ≤ c) ∨ (2 ≤ utf8len c ∧ utf8len c ≤ 4 ∧ 192 ≤ c)) := by decide +kernel
 
 theorem utf8len_big (c : Nat) (h : ¬ c < 256) : utf8len c = 0 := by
   have hlen : utf8lenTable.length ≤ c := by rw [utf8lenTable_length]; omega
